@@ -52,6 +52,23 @@ def s_chars(tier, rng, evs=EVS, mode='eval'):
             out.append(case(ev, mode, None, s))
     return out
 
+def s_nearmiss_chars(tier, rng, evs=EVS):
+    """code points next to the ones of the alphabet (the gaps of the superscript block U+2071..U+2073, U+207A.., Latin-1
+       neighbours of ¹ ² ³ °, full-width and other decimal digits, look-alike brackets and operators), in the positions
+       where a lexer scans on: after a digit, after a superscript digit, alone, inside a name"""
+    exotic = [0x2071, 0x2072, 0x2073, 0x207A, 0x207B, 0x207C, 0x207D, 0x207E, 0x207F, 0x2080, 0x2081, 0x2089, 0x00B1, 0x00B4, 0x00B8, 0x00BA, 0x00BB,
+              0x00AA, 0x00AF, 0x2030, 0x2032, 0x03C0 - 1, 0x03C0 + 1, 0x03A0, 0x0660, 0x0661, 0x0969, 0xFF10, 0xFF11, 0xFF19, 0xFF08, 0xFF09, 0xFF0B,
+              0x2212, 0x00D7, 0x00F7, 0x2044, 0x2308 - 1, 0x230B + 1, 0x2309, 0x230A, 0x2070 - 1, 0x2079 + 1, 0x1D7CF, 0x00B2 - 1, 0x00B3 + 1, 0x00B9 - 1, 0x00B9 + 1,
+              0x40 - 1, 0x40 + 1, 0x69 + 1, 0x2E - 1, 0x2C - 1, 0x5E - 1, 0x5E + 1, 0x7C + 1, 0x26 - 1, 0x3C - 1, 0x3E + 1, 0x21 - 1, 0x25 - 1, 0x25 + 1, 0x130, 0x131]
+    ctx = ['%s', '2%s', '2²%s', '2%s²', '2⁰%s', '(1+1)¹%s+1', '%s2', '2+%s', '2%s3', 's%sin(1)', 'sin(1%s)', '2³%s²', '@%s', '2.%s5']
+    out = []
+    for ev in evs:
+        for cp in exotic:
+            for c in ctx:
+                out.append(case(ev, 'eval', None, c % chr(cp)))
+            out.append(case(ev, 'tokens', None, '2²' + chr(cp)))
+    return out
+
 def s_keywords(tier, rng, evs=EVS, mode='tokens'):
     """every keyword of the union vocabulary in every evaluator, alone, followed by each first-character class,
        and with one character deleted / replaced (near misses)"""
@@ -348,7 +365,7 @@ def run_C02(tier, rng, stats):
     return res
 
 def run_C03(tier, rng, stats):
-    cs = (s_tokseq(tier, rng, qlen=4, tlen=5) + s_tokseq_full(tier, rng) + s_chars(tier, rng) + s_keywords(tier, rng) +
+    cs = (s_tokseq(tier, rng, qlen=4, tlen=5) + s_tokseq_full(tier, rng) + s_chars(tier, rng) + s_nearmiss_chars(tier, rng) + s_keywords(tier, rng) +
           s_wf(tier, rng, nq=300, nt=3000) + s_mut(tier, rng, nq=400, nt=4000) +
           s_tokseq(tier, rng, mode='ast', qlen=3, tlen=4) + s_chars(tier, rng, mode='tokens'))
     stats['rule'] = ('all token sequences <= %d over a representative alphabet incl. a foreign character and a foreign keyword, all strings <= 3/4 chars, '
@@ -737,6 +754,15 @@ def run_C12(tier, rng, stats):
                     for c in ['%s', '1+%s', '2*%s', '(%s)/3']:
                         pairs.append((case(ev, 'eval', None, c % (A + R)), case(ev, 'eval', None, c % ('(' + A + '*(' + R + '))')), 'implicit product chain vs (A*(R))'))
                         pairs.append((case(ev, 'ast', None, c % (A + R)), case(ev, 'ast', None, c % ('(' + A + '*(' + R + '))')), 'implicit product chain vs (A*(R)) (tree)'))
+    # every function-call form as the LEFT factor, including the zero-argument avg() that the parser turns into a literal
+    for ev in EVS:
+        calls = [f + '(2)' for f in gen.F1[ev][:6]] + [f + '(2,3)' for f in gen.F2[ev][:3]] + \
+                [f + a for f in gen.FV[ev] for a in ('(2)', '(2,3)', '(1,2,3)')] + (['avg()'] if 'avg' in gen.FV[ev] else [])
+        rights = ['(3)', '3', 'abs(4)'] + (['⌊2.5⌋', '⌈2.5⌉'] if gen.HAS_FLOORBR[ev] else []) + ['(3)^2']
+        for A in calls:
+            for R in rights:
+                for c in ['%s', '1+%s', gen.F2[ev][0] + '(7,%s)']:
+                    pairs.append((case(ev, 'eval', None, c % (A + R)), case(ev, 'eval', None, c % ('(' + A + '*(' + R + '))')), 'call as left factor vs (A*(R))'))
     rej = []
     for ev in EVS:
         for left in ['@', 'pi', 'e', '2²', '2°', '2rad', 'π']:
@@ -1065,6 +1091,18 @@ def run_C11(tier, rng, stats):
             cs.append(case(ev, 'eval', None, f + '()'))
             cs.append(case(ev, 'eval', None, f + '(1,)'))
             cs.append(case(ev, 'eval', None, f + '(,1)'))
+    # extreme operands through the placeholder (subnormals, the largest doubles, 2^53 neighbours, i64 extremes, 28-digit
+    # decimals): compared with the model bit for bit (mean of the two middle values = (a + b) / 2 computed in that order)
+    ext = {'f64': [f2w(x) for x in (5e-324, 1.5e-323, -5e-324, 2.2250738585072014e-308, 1e308, 1.7976931348623157e308, 9007199254740993.0, -0.0, 0.1)],
+           'number': ['F' + f2w(x) for x in (5e-324, 1.5e-323, -5e-324, 2.2250738585072014e-308, 1e308, 9007199254740993.0, -0.0, 0.1)] +
+                     ['I9223372036854775807', 'I-9223372036854775808', 'I9007199254740993', 'I3'],
+           'i64': ['9223372036854775807', '-9223372036854775808', '-9223372036854775807', '3', '-3'],
+           'decimal': ['79228162514264337593543950335/0', '-79228162514264337593543950335/0', '1/28', '-1/28', '7922816251426433759354395033/1', '15/1', '-0/2']}
+    for ev in ['f64', 'i64', 'decimal', 'number']:
+        for ph in ext[ev]:
+            for e in ['med(@,@)', 'avg(@,@)', 'med(0,@,@,1)', 'min(@,@)', 'max(@,@)', 'med(@,@+@)', 'avg(@,@,@)', 'med(@,-@)', 'avg(@,-@)', 'med(@,0)', 'avg(@,1)',
+                      'min(@,-@)', 'max(-@,@)', 'med(@,@,@)', 'med(1,@,@,@)', 'max(@,0,1)', 'min(0,@,1)']:
+                cs.append(case(ev, 'eval', ph, e))
     cs += s_aggfail(tier, rng)
     stats['rule'] = ('min max avg med/median (f64 i64 decimal number) and gcd lcm (i64): all argument lists of length <= %d over a pool with duplicates, negatives, zeros and extremes, '
                      'random lists up to 8, all permutations of short lists (a sample beyond); empty lists, dangling commas, failing arguments; '
@@ -1490,6 +1528,24 @@ def run_C10(tier, rng, stats):
             add('decimal', f + '(' + dec_lit(x) + ',' + dec_lit(y) + ')', None, ('f2', f, (x, y)))
     for x in [float(n) for n in range(0, 28)] + [0.5, 1.5, 2.5, -0.5, -0.7, 10.25]:
         add('decimal', dec_lit(x) + '!', None, ('fact', '!', (x,)))
+    # negative zeros as arguments (the value is 0: every function defined at 0 must treat it as 0)
+    for ev in ['f64', 'number']:
+        mk = (lambda x: f2w(x)) if ev == 'f64' else (lambda x: 'F' + f2w(x))
+        for f in gen.F1[ev]:
+            add(ev, f + '(@)', mk(-0.0), ('f1', f, (-0.0,)))
+            add(ev, f + '(ceil(-0.5))', None, ('f1', f, (-0.0,)))
+        add(ev, '@!', mk(-0.0), ('fact', '!', (-0.0,)))
+        add(ev, 'ceil(-0.5)!', None, ('fact', '!', (-0.0,)))
+        add(ev, '(-0.0)!', None, ('fact', '!', (-0.0,)))
+    for z in ['(-0)', '(-0.0)', 'ceil(-0.5)', 'trunc(-0.5)', '⌈-0.5⌉', 'floor(-0)', 'min(0,-0)', '(0*-1)']:
+        for f in gen.F1['decimal']:
+            add('decimal', f + '(' + z + ')', None, ('f1', f, (-0.0,)))
+        add('decimal', z + '!', None, ('fact', '!', (-0.0,)))
+    for f in gen.F1['decimal']:
+        add('decimal', f + '(@)', '-0/0', ('f1', f, (-0.0,)))
+        add('decimal', f + '(@)', '-0/2', ('f1', f, (-0.0,)))
+    add('decimal', '@!', '-0/0', ('fact', '!', (-0.0,)))
+    add('decimal', '@!', '-0/3', ('fact', '!', (-0.0,)))
     cases, outs, model = run_streams(cs, stats)
     res = std_judge('C10', cases, outs, model)
     KF = vlib.known_findings()
@@ -1544,7 +1600,7 @@ def run_C10(tier, rng, stats):
         else:
             if math.isinf(ref) and ev == 'decimal':
                 continue
-            if ev == 'decimal' and (abs(ref) > 7e28 or (got is None and (abs(ref) > 1e27 or f in ('w', 'lambert_w', 'ln', 'lb', 'exp', 'pow', 'root', 'log', 'sqrt', '!')))):
+            if ev == 'decimal' and (abs(ref) > 7e28 or (got is None and (abs(ref) > 1e27 or (f in ('w', 'lambert_w', 'ln', 'lb', 'exp', 'pow', 'root', 'log', 'sqrt', '!') and not (f == 'sqrt' and ref == 0))))):
                 continue      # rust_decimal's range / its own checked_* failures: not decided by this reference
             n += 1
             ok = got is not None and numref.close(got, ref, tol if tol else 0.0, 1e-300) if tol else (got is not None and (got == ref or (got != got and ref != ref)))
